@@ -299,4 +299,31 @@ theorem marshal_eq_spec_conf_noVariant (A : AlignTable) (hA : PadOK A) (hpos : A
     (Nat.le_trans (Spec.depth_fields_ty A (endianOf le) vs ts off bs henc hnv) hfuel)
 
 end Code
+
+/-! ### data of the instances in `Properties/C01.lean`, `Properties/C02.lean`
+
+A variant (holding the list `[1, 2]`, inferred `ai`) inside a dict inside an array inside an array, then a descriptor:
+signature `aa{sv}h`, Python values `[[{'k': [1, 2]}], 5]`; little endian at offset 3 (41 bytes), big endian at offset 1
+(43 bytes, padding in other places).  The value is 6 levels deep. -/
+namespace FuelFreeEx
+
+def ts : List Ty := [.array (.array (.dict (.basic .s) .variant)), .basic .h]
+def sig : List Char := ['a', 'a', '{', 's', 'v', '}', 'h']
+def pv : PyVal := .list [.list [.dict [(.str .plain ['k'], .list [.int .plain 1, .int .plain 2])]], .int .plain 5]
+def vs : List Val :=
+  [.array [.array [.entry (.str [107]) (.variant (.array (.basic .i)) (.array [.int 1, .int 2]))]], .int 0]
+/-- what `unmarshal` returns (descriptor list `[5]`). -/
+def decoded : List PyVal := [.list [.dict [(.str .plain ['k'], .list [.int .plain 1, .int .plain 2])]], .int .plain 5]
+/-- `marshal('aa{sv}h', [[{'k': [1, 2]}], 5], 3, True, [])` as CPython produces it. -/
+def bsL : Bytes := [0, 32, 0, 0, 0, 24, 0, 0, 0, 0, 0, 0, 0, 1, 0, 0, 0, 107, 0, 2, 97, 105, 0, 0, 0, 8, 0, 0, 0, 1, 0,
+  0, 0, 2, 0, 0, 0, 0, 0, 0, 0]
+/-- the same values big endian at offset 1. -/
+def bsB : Bytes := [0, 0, 0, 0, 0, 0, 32, 0, 0, 0, 24, 0, 0, 0, 0, 0, 0, 0, 1, 107, 0, 2, 97, 105, 0, 0, 0, 0, 0, 0, 8,
+  0, 0, 0, 1, 0, 0, 0, 2, 0, 0, 0, 0]
+def pre3 : Bytes := [9, 9, 9]
+def pre1 : Bytes := [9]
+def suf : Bytes := [0xaa, 0x55]
+
+end FuelFreeEx
+
 end Txdbus
